@@ -108,6 +108,7 @@ RULES = {
     "EXACT-IDS": _mod("rules2", "rule_exact_ids"),
     "SEED-TOTAL": _mod("rules2", "rule_seed_total"),
     "ER-DRAW": _mod("rules2", "rule_er_draw"),
+    "FILTER-VERTS": _mod("rules2", "rule_filter_verts"),
     "RELAX-AGREE": _mod("bfm", "rule_relax_agree"),
     "FW-SHAPE": _mod("relax", "rule_fw_shape"),
     "DM-QUERIES": _mod("relax", "rule_dm_queries"),
@@ -189,7 +190,8 @@ PROPERTY_RULES = {
         "explanation": "BellmanFordMoore::distances, decided over relaxation units and arc visits (inline code or a local "
                        "closure, raw pointers or indexing, any unrolling): every store into dist[] is dist[head] = dist[tail] + w "
                        "with tail, head, w read from one arc tuple, guarded by dist[tail] != isize::MAX and (dist[tail] + w) < "
-                       "dist[head] (R1); in every round every arc index 0..arcs_len is visited - the counter skeleton of the round "
+                       "dist[head] (R1); the arc list is collected from arcs_weighted() through item-preserving adaptors only (no filter / skip / "
+                       "take); in every round every arc index 0..arcs_len is visited - the counter skeleton of the round "
                        "(guards i + c < len, visits arcs[i + k], advance i += s, tail) is extracted from the MIR and evaluated "
                        "exhaustively for arcs_len = 0..12 (R2, ARC-COVERAGE); every storing relaxation raises the `changed` flag, "
                        "which is reset per round and tested (R3); rounds are `1..order`; the final pass examines every arc, returns "
@@ -214,7 +216,7 @@ PROPERTY_RULES = {
         "assumptions": COMMON_ASSUMPTIONS,
     },
     "C11": {
-        "rules": ["PURE-OPS", "IDSRC-OPS", "CONC-OPS", "BITS"],
+        "rules": ["PURE-OPS", "IDSRC-OPS", "CONC-OPS", "BITS", "FILTER-VERTS"],
         "explanation": "complement / converse / union / filter_vertices: operands are unchanged (PURE on these methods and "
                        "their closures); AdjacencyMap's implementations never use 0..order, a position or a count as a vertex "
                        "id (IDSRC); the threaded AdjacencyList::{complement, union} and AdjacencyMap::union join every worker "
@@ -223,7 +225,9 @@ PROPERTY_RULES = {
                        "AdjacencyMatrix writes the bit matrix only cell by cell (i >> 6, 1 << (i & 63)); whole words are combined only "
                        "as `a |= b` on the same word of two matrices under a check that their orders are equal (a word-wise union of "
                        "matrices of different orders puts arcs at the wrong cells). Counts (order/size) are tracked into closures through "
-                       "their captures (IDSRC), worker scratch containers are row-local (CONC, row-local-scratch).",
+                       "their captures (IDSRC), worker scratch containers are row-local (CONC, row-local-scratch). filter_vertices scans the "
+                       "vertex set of self and gives every scanned vertex that satisfies the predicate a row under that test alone "
+                       "(FILTER-VERTS: a result built from the arcs only loses isolated kept vertices).",
         "trusted_base": TB + ["lemma L-TILE", "tables/trusted_tiles.json"],
         "not_decided": "that the arc set is the set-theoretic one; involution/commutativity; validity of literal-built results of "
                        "the contiguous types (value-level set reasoning through iterator chains)",
@@ -243,7 +247,8 @@ PROPERTY_RULES = {
                        "A predicate of AdjacencyMatrix that reads the bit matrix directly masks a word only with the bit of a cell that "
                        "lives in that word (BITS, bit-read clause). is_tournament / is_semicomplete / is_symmetric / is_oriented are not "
                        "decided from order / size / degree counts alone (digraphs with equal counts differ in them): an implementation "
-                       "that never reads the adjacency of a pair is a violation (from-counts).",
+                       "that never reads the adjacency of a pair is a violation (from-counts); likewise is_regular / is_balanced decided from "
+                       "order, size and outdegrees (row lengths) alone, without any indegree information or head of an arc.",
         "trusted_base": TB + ["lemma L-TILE"],
         "not_decided": "is_complete, is_regular, is_simple, the AdjacencyList/AdjacencyMap pair scans written over raw rows, the "
                        "vertex-set clauses of sub/spanning subdigraph: value-level",
@@ -299,7 +304,8 @@ PROPERTY_RULES = {
                        "flag, every path that starts where a pair has just failed both membership tests stores `false` before the "
                        "next pair is tested or the worker returns (flag-published-on-failure, a path rule with constant propagation "
                        "of the two test results); a scratch container created before a worker's row loop, refilled and read inside it, is "
-                       "emptied on every path of the iteration before it is read (row-local-scratch); the row partition matches "
+                       "emptied on every path of the iteration before it is read (row-local-scratch); a strided worker "
+                       "(start..n).step_by(s) is accepted only when workers are started for start = 0..s-1; the row partition matches "
                        "start = k*c or step_by(c), end = min(n, start + c), c = div_ceil(n, t), or chunks(c) (TILE); the CPU count "
                        "reaches PRNG seeds only in the two allowed generators (NONDET).",
         "trusted_base": TB + ["lemma L-TILE", "tables/trusted_tiles.json (AdjacencyMap::union merge path)"],
